@@ -315,75 +315,75 @@ func runC12(r *evid.Run) {
 
 	// ---- part 2: validator, product BFS to closure ----
 	for pass, events := range [][]vEvent{c12Alphabet(r.Tier), c12DeepAlphabet(r.Tier), c12DotAlphabet(r.Tier)} {
-	type item struct{ hist []vEvent }
-	seen := map[string]bool{}
-	frontier := []item{{}}
-	_, _, _, d0, s0 := runSeq(nil)
-	seen[d0+"#"+s0] = true
-	r.State(d0 + "#" + s0)
-	depth := 0
-	maxStates := 400000
-	if r.Tier == "quick" {
-		maxStates = 60000
-	}
-	closed := false
-	for len(frontier) > 0 {
-		depth++
-		type res struct {
-			key  string
-			hist []vEvent
+		type item struct{ hist []vEvent }
+		seen := map[string]bool{}
+		frontier := []item{{}}
+		_, _, _, d0, s0 := runSeq(nil)
+		seen[d0+"#"+s0] = true
+		r.State(d0 + "#" + s0)
+		depth := 0
+		maxStates := 400000
+		if r.Tier == "quick" {
+			maxStates = 60000
 		}
-		results := make([][]res, len(frontier))
-		par.Do(len(frontier), par.Workers(), func(i int) {
-			h := frontier[i].hist
-			for _, e := range events {
-				seq := append(append([]vEvent{}, h...), e)
-				bad, real, spec, dump, skey := runSeq(seq)
-				r.Evaluations.Add(1)
-				r.Transitions.Add(1)
-				r.Traces.Add(1)
-				last := len(seq) - 1
-				if bad >= 0 {
-					key := "rejects-valid"
-					if real[bad] {
-						key = "accepts-invalid:" + classifyBad(seq[bad].Path)
+		closed := false
+		for len(frontier) > 0 {
+			depth++
+			type res struct {
+				key  string
+				hist []vEvent
+			}
+			results := make([][]res, len(frontier))
+			par.Do(len(frontier), par.Workers(), func(i int) {
+				h := frontier[i].hist
+				for _, e := range events {
+					seq := append(append([]vEvent{}, h...), e)
+					bad, real, spec, dump, skey := runSeq(seq)
+					r.Evaluations.Add(1)
+					r.Transitions.Add(1)
+					r.Traces.Add(1)
+					last := len(seq) - 1
+					if bad >= 0 {
+						key := "rejects-valid"
+						if real[bad] {
+							key = "accepts-invalid:" + classifyBad(seq[bad].Path)
+						}
+						r.Violate(key, fmt.Sprintf("history %v: element %d %v real accept=%v spec accept=%v", seq, bad, seq[bad], real[bad], spec[bad]), map[string]any{"seq": seq})
+						continue
 					}
-					r.Violate(key, fmt.Sprintf("history %v: element %d %v real accept=%v spec accept=%v", seq, bad, seq[bad], real[bad], spec[bad]), map[string]any{"seq": seq})
-					continue
+					if len(real) == len(seq) && real[last] && spec[last] {
+						results[i] = append(results[i], res{dump + "#" + skey, seq})
+						if len(seq) >= 2 {
+							r.Nontrivial(dump + "#" + skey)
+						}
+					}
 				}
-				if len(real) == len(seq) && real[last] && spec[last] {
-					results[i] = append(results[i], res{dump + "#" + skey, seq})
-					if len(seq) >= 2 {
-						r.Nontrivial(dump + "#" + skey)
+			})
+			var next []item
+			for _, rs := range results {
+				for _, x := range rs {
+					if !seen[x.key] {
+						seen[x.key] = true
+						r.State(x.key)
+						next = append(next, item{x.hist})
+						if len(seen) == 3 || len(seen) == 40 || len(seen) == 400 {
+							r.Sample(map[string]any{"history": x.hist, "validator_state": strings.SplitN(x.key, "#", 2)[0]})
+						}
 					}
 				}
 			}
-		})
-		var next []item
-		for _, rs := range results {
-			for _, x := range rs {
-				if !seen[x.key] {
-					seen[x.key] = true
-					r.State(x.key)
-					next = append(next, item{x.hist})
-					if len(seen) == 3 || len(seen) == 40 || len(seen) == 400 {
-						r.Sample(map[string]any{"history": x.hist, "validator_state": strings.SplitN(x.key, "#", 2)[0]})
-					}
-				}
+			frontier = next
+			if len(seen) > maxStates {
+				break
 			}
 		}
-		frontier = next
-		if len(seen) > maxStates {
-			break
+		closed = len(frontier) == 0
+		r.Set(fmt.Sprintf("validator_bfs_depth_alphabet%d", pass), depth)
+		r.Set(fmt.Sprintf("validator_closure_reached_alphabet%d", pass), closed)
+		r.Set(fmt.Sprintf("validator_alphabet%d", pass), len(events))
+		if !closed {
+			r.Exhaustive = false
 		}
-	}
-	closed = len(frontier) == 0
-	r.Set(fmt.Sprintf("validator_bfs_depth_alphabet%d", pass), depth)
-	r.Set(fmt.Sprintf("validator_closure_reached_alphabet%d", pass), closed)
-	r.Set(fmt.Sprintf("validator_alphabet%d", pass), len(events))
-	if !closed {
-		r.Exhaustive = false
-	}
 	}
 }
 
